@@ -350,6 +350,60 @@ func allOfFamily(c *enumCtx) {
 		gen.JObj(gen.Member{Key: "c", Val: gen.JBool("true")}, gen.Member{Key: "b", Val: gen.JStr(`"s"`)}, gen.Member{Key: "a", Val: gen.JInt("1")}, gen.Member{Key: "r", Val: gen.JInt("1")}),
 		gen.JNull(), gen.JArr(), gen.JInt("1"))
 	c.Bound("allof_documents", len(docs))
+	// usage contexts: the heir next to direct uses of its bases (compiling one
+	// type must not change what another type accepts)
+	types = append(types, sc.TypeDecl{Name: "@P5", Body: gen.Obj(gen.P("e", gen.Int("1")))})
+	heirs := []*gen.Node{
+		mk(nil, gen.RL("allOf", lit(`"@P1"`), lit(`"@P5"`))),
+		mk(ropt, gen.RL("allOf", lit(`"@P1"`), lit(`"@P5"`))),
+		mk(r1, gen.RL("allOf", lit(`"@P1"`), lit(`"@P5"`))),
+		mk(nil, gen.RL("allOf", lit(`"@P5"`), lit(`"@P2"`), lit(`"@P1"`))),
+		mk(ropt, gen.R("allOf", `"@P3"`)),
+		mk(nil, gen.RL("allOf", lit(`"@P2"`), lit(`"@P5"`))),
+	}
+	small := []*gen.JV{}
+	for _, d := range docs {
+		if len(d.Mem) <= 2 {
+			small = append(small, d)
+		}
+	}
+	bases := []*gen.JV{gen.JObj(gen.Member{Key: "a", Val: gen.JInt("1")}), gen.JObj(gen.Member{Key: "a", Val: gen.JInt("1")}, gen.Member{Key: "e", Val: gen.JInt("1")}), gen.JObj(), gen.JObj(gen.Member{Key: "e", Val: gen.JInt("1")})}
+	var ctxDocs []*gen.JV
+	for _, b := range bases {
+		for _, d := range small {
+			ctxDocs = append(ctxDocs, gen.JObj(gen.Member{Key: "plain", Val: b}, gen.Member{Key: "other", Val: b}, gen.Member{Key: "full", Val: d}))
+		}
+	}
+	full5 := gen.JObj(gen.Member{Key: "a", Val: gen.JInt("1")}, gen.Member{Key: "e", Val: gen.JInt("1")})
+	for _, b := range bases {
+		ctxDocs = append(ctxDocs, gen.JObj(gen.Member{Key: "plain", Val: b}, gen.Member{Key: "other", Val: b}, gen.Member{Key: "full", Val: full5}),
+			gen.JObj(gen.Member{Key: "plain", Val: b}, gen.Member{Key: "other", Val: gen.JObj(gen.Member{Key: "e", Val: gen.JInt("1")})}, gen.Member{Key: "full", Val: full5}))
+	}
+	c.Bound("allof_context_documents", len(ctxDocs))
+	for hi, h := range heirs {
+		for _, order := range []int{0, 1} {
+			for _, referenced := range []bool{true, false} {
+				if !c.Mine() {
+					continue
+				}
+				props := []gen.Prop{gen.P("plain", gen.Ref("@P1")), gen.P("other", gen.Ref("@P5"))}
+				if referenced {
+					props = append(props, gen.P("full", gen.Ref("@H")))
+				} else {
+					props = append(props, gen.P("full", gen.Obj(gen.P("a", gen.Int("1")), gen.P("e", gen.Int("1")))))
+				}
+				ts := append(append([]sc.TypeDecl{}, types...), sc.TypeDecl{Name: "@H", Body: h})
+				if order == 1 {
+					ts = append([]sc.TypeDecl{{Name: "@H", Body: h}}, types...)
+				}
+				cs := sc.Case{Root: gen.Obj(props...), Types: ts}
+				c.visit(cs, ctxDocs, "allof")
+				if hi == 0 {
+					c.Sample("allof-context", cs.Describe())
+				}
+			}
+		}
+	}
 	for _, root := range roots {
 		for _, ap := range aps {
 			for _, opt := range []bool{false, true} {
